@@ -79,6 +79,32 @@ theorem let_local (sc : Nat) (name vb : List Nat) (x : Val) (st st' : St) (hn : 
   intro t ht
   rw [withVar_scope_other _ _ _ _ _ ht, withVar_scope_other _ _ _ _ _ ht]
 
+/-- The `let` STATEMENT as the evaluator runs it — `setLocalValue sc v null` (the `let` node) and then the
+    assignment's `setValue sc v x`: the value lands in the current scope, whatever enclosing scopes define, and no
+    other scope changes. -/
+theorem let_statement_local (sc : Nat) (name vb : List Nat) (x : Val) (st st' : St) (hn : splitDots name = [vb])
+    (hsc : sc < st.scopes.size)
+    (h : runM (do setLocalValue sc name Val.null; setValue sc name x) st = (.ok (), st')) :
+    st'.nearest sc (bytesToString vb) = some sc ∧ st'.valueIn sc (bytesToString vb) = x ∧
+    ∀ t, t ≠ sc → st'.scope t = st.scope t := by
+  rw [runM_bind] at h
+  cases h1 : runM (setLocalValue sc name Val.null) st with
+  | mk r1 s1 =>
+    rw [h1] at h
+    cases r1 with
+    | error e => simp at h
+    | ok u =>
+      simp only at h
+      obtain ⟨e1, hn1, _, ho1⟩ := let_local sc name vb Val.null st s1 hn hsc h1
+      have hs1 : sc < s1.scopes.size := by rw [e1]; simp [St.withVar]; exact hsc
+      have e2 := assign_nearest_or_local sc name vb x s1 st' hn h
+      rw [hn1] at e2
+      simp only [Option.getD_some] at e2
+      subst e2
+      refine ⟨nearest_self _ _ _ (withVar_defines s1 sc _ x hs1), withVar_valueIn s1 sc _ x hs1, ?_⟩
+      intro t ht
+      rw [withVar_scope_other s1 sc t _ x ht]; exact ho1 t ht
+
 /-- A definition made in a scope `t` that is not on the parent chain of `sc` (an inner block, the frame of a
     function call, a sibling) is invisible from `sc`: name resolution from `sc` and the value read are the same
     as before. -/
@@ -219,6 +245,38 @@ theorem call_frames_noDefaults (ev : Ecal.Parse.Node → M Val) (fr : FuncRec)
   exact ⟨call_fresh_locals _ fr params args st st' fvs t ht hpl hev h,
     closure_sees_definition_scope _ fr params args st st' fvs t f ht hpl hev h⟩
 
+/-- The finished frame of a call whose parameter list has no defaults holds EXACTLY `this`, `super` (if bound) and
+    then every parameter with the argument at its position (null when the argument is missing; arguments beyond the
+    parameters bind nothing; a later parameter of the same name overwrites an earlier one), is linked to the
+    declaration scope, and no existing scope changed — for EVERY default evaluator `ev` (it is never called). -/
+theorem frame_contents (ev : Ecal.Parse.Node → M Val) (fr : FuncRec) (params : List (Option Ecal.Parse.Node)) (args : List Val)
+    (st st' : St) (fvs : Nat) (hnp : NoPreset params) (hpl : PlainParams params)
+    (h : runM (buildFrame ev fr params args) st = (.ok fvs, st')) :
+    fvs = st.scopes.size ∧
+    (st'.scope fvs).vars = applyBindings [] (contextBindings fr ++ paramBindings params 0 args) ∧
+    (st'.scope fvs).parent = some fr.declScope ∧ ∀ t, t < st.scopes.size → st'.scope t = st.scope t :=
+  buildFrame_contents ev fr params args st st' fvs hnp hpl h
+
+/-- … so a parameter whose name no later parameter repeats reads, in the frame, the argument at its position (null
+    when missing): `valueIn fvs p = args[j] | null` -/
+theorem param_value (ev : Ecal.Parse.Node → M Val) (fr : FuncRec) (params : List (Option Ecal.Parse.Node)) (args : List Val)
+    (st st' : St) (fvs : Nat) (hnp : NoPreset params) (hpl : PlainParams params)
+    (h : runM (buildFrame ev fr params args) st = (.ok fvs, st'))
+    (pre post : List (String × Val)) (nm : String) (v : Val)
+    (hsplit : contextBindings fr ++ paramBindings params 0 args = pre ++ [(nm, v)] ++ post)
+    (hpost : ∀ kv ∈ post, kv.1 ≠ nm) :
+    st'.valueIn fvs nm = v ∧ st'.nearest fvs nm = some fvs := by
+  obtain ⟨_, hv, _, _⟩ := frame_contents ev fr params args st st' fvs hnp hpl h
+  have hf := applyBindings_find [] pre post nm v hpost
+  rw [← hsplit, ← hv] at hf
+  have hd : st'.defines fvs nm = true := by
+    simp only [St.defines]
+    cases hfind : (st'.scope fvs).vars.find? (·.1 == nm) with
+    | none => rw [hfind] at hf; cases hf
+    | some _ => rfl
+  refine ⟨?_, nearest_self st' fvs nm hd⟩
+  simp only [St.valueIn, hf, Option.getD_some]
+
 /-! non-vacuity ON THE EVALUATOR: the default evaluator is the one `runFunction` passes (`eval fuel callerScope`),
     the caller scope is the block scope 1 of `exSt`, the declaration scope the global scope 0 -/
 def nd (name : String) (val : List Nat) (children : List (Option Ecal.Parse.Node)) : Ecal.Parse.Node :=
@@ -241,6 +299,8 @@ def exRun1 : Except Sig Nat × St := runM (buildFrame (fun d => eval 50 1 d) exF
 def exRun2 : Except Sig Nat × St := runM (buildFrame (fun d => eval 50 1 d) exFr [some exParamA, some exParamB5] [.bool true]) exSt
 
 example : exRun1.1 = .ok 2 := rfl
+/-- `frame_contents` on the real evaluator: the frame of `f(true)` is exactly [a ↦ true] -/
+example : (exRun1.2.scope 2).vars = [("a", Val.bool true)] := rfl
 
 /-- no hypothesis on the evaluator: the caller's scope 1 and the global scope 0 are untouched, the frame hangs under
     the declaration scope 0 -/
